@@ -334,7 +334,7 @@ def commaSep (l : List String) : String := ",".intercalate l
 def showObs (s : St) (o : Obs) : String :=
   let ev := o.ev.map (fun x => match x with | some (t, p) => s!"{showName s t}:{p}" | none => "-")
   let loc := o.loc.map (fun x => match x with | some (e, v) => s!"{showName s e}:{v}" | none => "-")
-  s!"se={commaSep (o.sysEv.map showOpt)} se2={commaSep (o.sysEv2.map showOpt)} bc={commaSep (o.bc.map showOpt)} ev={commaSep ev} ins={commaSep (o.insE.map (showOptName s))} mut={commaSep (o.mutE.map (showOptName s))} rem={commaSep (o.remE.map (showOptName s))} dsp={showOptName s o.dsp} loc={commaSep loc}"
+  s!"se={commaSep (o.sysEv.map showOpt)} se2={commaSep (o.sysEv2.map showOpt)} bc={commaSep (o.bc.map showOpt)} ev={commaSep ev} ins={commaSep (o.insE.map (fun x => match x with | some e => (if s.alive e then showName s e else showName s e ++ "!") | none => "-"))} mut={commaSep (o.mutE.map (showOptName s))} rem={commaSep (o.remE.map (showOptName s))} dsp={showOptName s o.dsp} loc={commaSep loc}"
 
 def showOwner (o : Nat) : String := if o ≥ 1000000 then s!"top{o - 1000000}" else s!"s{o}"
 
